@@ -87,8 +87,9 @@ def seed_entries():
             by_prop.setdefault(c.split('.')[0], []).append(c)
         for prop, rules in sorted(by_prop.items()):
             out.append(('seed-' + sid, prop, '<patch>', patch, '', ','.join(rules)))
-            # the same change with every local of the package renamed afterwards: what a rule
-            # catches must not depend on how the locals are spelled
+            # the same change followed by the mechanical twins (every if/else inverted, trailing ifs
+            # turned into guard clauses, every local renamed): what a rule catches must not depend on
+            # spelling or branch polarity
             out.append(('seedalpha-' + sid, prop, '<patch+alpha>', patch, '', ','.join(rules)))
     return out
 
@@ -111,7 +112,11 @@ def benign_entries():
             out.append(('benign-' + bid, prop, '<patch>', patch, '', 'ok'))
     for prop in props:
         # mechanical twin: every local variable of every function renamed (selftest/alpha.py)
-        out.append(('benign-alpha', prop, '<alpha>', '', '', 'ok'))
+        out.append(('benign-alpha', prop, '<alpha>', 'alpha', '', 'ok'))
+        # every if/else inverted; trailing ifs turned into guard clauses; all three together
+        out.append(('benign-invert', prop, '<alpha>', 'invert', '', 'ok'))
+        out.append(('benign-guard', prop, '<alpha>', 'guard', '', 'ok'))
+        out.append(('benign-all-mechanical', prop, '<alpha>', 'all', '', 'ok'))
     return out
 
 
@@ -123,10 +128,11 @@ def run_variant(args):
             return ident, 'skipped', 'patch does not apply to the current sources'
         if module == '<patch+alpha>':
             from selftest import alpha
-            sources = alpha.rename_locals(sources)
+            sources = alpha.rename_locals(alpha.guard_clauses(alpha.invert_ifs(sources)))
     elif module == '<alpha>':
         from selftest import alpha
-        sources = alpha.rename_locals(sources)
+        sources = {'alpha': alpha.rename_locals, 'invert': alpha.invert_ifs, 'guard': alpha.guard_clauses,
+                   'all': lambda x: alpha.rename_locals(alpha.guard_clauses(alpha.invert_ifs(x)))}[old](sources)
     else:
         src = sources[module]
         if src.count(old) < 1:
